@@ -151,7 +151,30 @@ type xfOutcome struct {
 	LeftOpen  int
 }
 
-type xfPeerHold struct{ p *xfPeer }
+type xfPeerHold struct {
+	p   *xfPeer
+	cfg xfCfg
+	n   int // bytes moved through the held connection (its raw log grows with them)
+}
+
+// get returns the held peer if it belongs to cfg and can be reset for a new case.
+func (h *xfPeerHold) get(cfg xfCfg, po xfPeerOpts, bytes int) *xfPeer {
+	if h == nil || h.p == nil {
+		return nil
+	}
+	h.n += bytes
+	if h.cfg != cfg || h.n > 32<<20 || !h.p.Reset(po) {
+		h.Close()
+		return nil
+	}
+	return h.p
+}
+
+func (h *xfPeerHold) put(cfg xfCfg, p *xfPeer) {
+	if h != nil {
+		h.p, h.cfg, h.n = p, cfg, 0
+	}
+}
 
 func (h *xfPeerHold) Close() {
 	if h != nil && h.p != nil {
@@ -174,22 +197,14 @@ func xfExec(cs xfCase, real *xfReal, srcDir string, hold *xfPeerHold) (out xfOut
 	path := "/f"
 	if cs.Srv.Kind == "peer" {
 		po := xfPeerOpts{File: initial, Exists: true, Window: 1, PermSeed: cs.PermSeed, ShortCap: cs.ShortCap, NoPerm: cs.NoPerm}
-		if hold != nil && hold.p != nil && hold.p.Reset(po) {
-			peer = hold.p
-		} else {
-			if hold != nil && hold.p != nil {
-				hold.p.Shutdown()
-				hold.p = nil
-			}
+		if peer = hold.get(cs.Cfg, po, cs.FileLen+cs.Len); peer == nil {
 			var err error
 			peer, err = xfNewPeer(cs.Cfg, po)
 			if err != nil {
 				out.SetupErr = err
 				return
 			}
-			if hold != nil {
-				hold.p = peer
-			}
+			hold.put(cs.Cfg, peer)
 		}
 		defer func() {
 			switch {
